@@ -137,7 +137,10 @@ class PITFrozenDilationMasker(PITDilationMasker):
             rf,
             trainable=False,
         )
-        self.gamma.requires_grad = False
+        # a frozen mask is a constant: keep it in the state_dict, but not among the parameters
+        frozen_gamma = self.gamma.detach().clone()
+        del self.gamma
+        self.register_buffer('gamma', frozen_gamma)
 
     @property
     def trainable(self) -> bool:
